@@ -75,17 +75,18 @@ def _classify(v): return v['what'].split(':')[0][:110]
 def shape_params(tier):
     return [dict(k1=a, k2=b) for a in range(len(KINDS)) for b in (range(0,len(KINDS),3) if tier=='quick' else range(len(KINDS)))]
 
-@obligation('C07','shape', bounds={'quick':"one triple, 3 rows over keys {a, b, 7 (non-string)}: key presence per row enumerated (ragged), value kind of 'a' = k1 (all 19 kinds), of 'b' = k2 (every third kind), key 7 an int; params dictionaries of environment/learner/evaluator carry the same two kinds; sinks {none, plain file, .gz file, file with .gz inside its name} + from_file",
+@obligation('C07','shape', bounds={'quick':"one triple, 3 rows over keys {a, b, 7 (non-string)}: key presence per row enumerated (ragged), value kind of 'a' = k1 (optionally k2 in the last row: one column, two shapes) (all 19 kinds), of 'b' = k2 (every third kind), key 7 an int; params dictionaries of environment/learner/evaluator carry the same two kinds; sinks {none, plain file, .gz file, file with .gz inside its name} + from_file",
                                    'thorough':"all 19 x 19 kind pairs"},
             functions=FUNCS, params=shape_params, classify=_classify, budget={'quick':100,'thorough':1500})
 def shape(sym, k1, k2):
     ka, kb = KINDS[k1], KINDS[k2]
     pres = [(sym.flag(f'a{i}'), sym.flag(f'b{i}'), i != 1) for i in range(3)]     # the non-string key is present in rows 0 and 2
     sink = sym.choice('sink', ['none','plain','gz','gz_mid'])
+    mix = sym.flag('mixed_column')              # the last row carries a value of the OTHER kind under key 'a' (one column, two shapes)
     rows = []
     for i,(pa,pb,pn) in enumerate(pres):
         r = {'i': i}
-        if pa: r['a'] = VALUES[ka]
+        if pa: r['a'] = VALUES[kb if (mix and i == 2) else ka]
         if pb: r['b'] = VALUES[kb]
         if pn: r[7] = i+0.5
         rows.append(r)
@@ -113,7 +114,7 @@ def shape(sym, k1, k2):
                 if isinstance(src, BinaryReward): continue
                 exp_v = canon(norm_value(src)) if src is not None else None
                 sym.check(k in g, f"column {k!r} missing from the interactions table")
-                if k in g: sym.check(canon(g[k]) == exp_v, f"row {i} field {k!r} (kind {ka if k=='a' else kb if k=='b' else 'num'}): table has {canon(g[k])!r}, evaluator yielded {src!r} -> expected {exp_v!r}")
+                if k in g: sym.check(canon(g[k]) == exp_v, f"row {i} field {k!r} (kind {(kb if (mix and i == 2) else ka) if k=='a' else kb if k=='b' else 'num'}): table has {canon(g[k])!r}, evaluator yielded {src!r} -> expected {exp_v!r}")
         for tab, p, idc in ((res.environments, envp, 'environment_id'), (res.learners, lrnp, 'learner_id'), (res.evaluators, valp, 'evaluator_id')):
             row = dict(zip(tab.columns, next(iter(zip(*[tab[c] for c in tab.columns])))))
             for k,v in p.items():
@@ -128,6 +129,62 @@ def shape(sym, k1, k2):
             sym.check(dd is None, f"Result with a {sink} file differs from the Result without a file: {dd}")
     finally:
         shutil.rmtree(d, ignore_errors=True)
+
+# ---------------------------------------------------------------------------------------------------
+def restored_params(tier):
+    ks = [('float','list'),('nested','str'),('dict','none'),('tuple','negfloat'),('nan','big')] if tier == 'quick' else [(a,b) for a in KINDS for b in KINDS[::4] if 'reward' not in (a,b)]
+    return [dict(ka=a, kb=b, gz=g) for a,b in ks for g in (False,True)]
+
+@obligation('C07','restored', bounds={'quick':"restored runs: 3 triples (one environment x three learners) whose evaluator rows carry two value kinds (5 kind pairs); the log of a complete run is cut at a solver-chosen point - every record boundary, and for plain files also 1 byte, 5 bytes and half a record before the end of each triple record (a torn record) - and the same experiment is run again on it, then once more: Result of the restored run == Result.from_file == Result without a file",
+                                      'thorough':"19 x 5 kind pairs"},
+            functions=FUNCS, params=restored_params, classify=_classify, budget={'quick':100,'thorough':1500})
+def restored(sym, ka, kb, gz):
+    rows = [{'i': 0, 'a': VALUES[ka]}, {'i': 1, 'b': VALUES[kb], 7: 1.5}, {'i': 2, 'a': VALUES[ka], 'b': VALUES[kb]}]
+    def build():
+        return Experiment([(PEnv({'name':'E','pa':VALUES[ka]}), PLearner({'family':'F','tag':j,'pb':VALUES[kb]}), ShapeEval([dict(r, j=j) for r in rows], {'vtag':'V'})) for j in range(3)])
+    run = lambda f: build().run(f, quiet=True, processes=1, maxchunksperchild=0, maxtasksperchunk=0)
+    exp.reset_context()
+    d = tempfile.mkdtemp(prefix='c07r_')
+    try:
+        f = os.path.join(d, 'r.log.gz' if gz else 'r.log')
+        ref = exp.comparable(run(None))
+        run(f)
+        raw = open(f,'rb').read()
+        if gz:
+            import gzip, io
+            # member boundaries: DiskSink writes one gzip member per record
+            cuts, pos = [], 0
+            import zlib
+            while pos < len(raw):
+                dobj = zlib.decompressobj(31); dobj.decompress(raw[pos:]); pos = len(raw) - len(dobj.unused_data); cuts.append(pos)
+            cuts = cuts[1:]                                   # keep at least the version record (a shorter file is a C02 known finding)
+        else:
+            ends = [i+1 for i,b in enumerate(raw) if b == 10]
+            cuts = list(ends[1:])
+            for a,b in zip(ends[1:], ends[2:]):
+                for back in (1, 5, (b-a)//2):
+                    if b-back > a: cuts.append(b-back)
+        cuts = sorted(set(cuts))
+        k = cuts[unwrap_int(sym, len(cuts))]
+        sym.note(cut=k, total=len(raw), gz=gz)
+        open(f,'wb').write(raw[:k])
+        exp.reset_context()
+        try: res2 = run(f)
+        except Exception as e: sym.fail(f"restored run raised {type(e).__name__}: {str(e)[:90]} (file cut at byte {k} of {len(raw)})")
+        dd = exp.diff(ref, exp.comparable(res2))
+        sym.check(dd is None, f"Result of the run restored from a log cut at byte {k}/{len(raw)} differs from the Result without a file: {dd}")
+        dd = exp.diff(ref, exp.comparable(Result.from_file(f)))
+        sym.check(dd is None, f"Result.from_file after the restored run (cut at byte {k}/{len(raw)}) differs from the Result without a file: {dd}")
+        exp.reset_context()
+        res3 = run(f)
+        dd = exp.diff(ref, exp.comparable(res3))
+        sym.check(dd is None, f"a further run on the completed file (cut at byte {k}/{len(raw)}) differs from the Result without a file: {dd}")
+    finally:
+        shutil.rmtree(d, ignore_errors=True)
+
+def unwrap_int(sym, n):
+    from symx import unwrap
+    return unwrap(sym.int('cut_index', 0, n-1))
 
 # ---------------------------------------------------------------------------------------------------
 class _IntMeta(type):
